@@ -50,7 +50,7 @@ def S.readMany (sp : S) (ks : List Nat) : List (Option Nat) :=
 inductive Why where
   /-- nothing happened to this key -/
   | unchanged
-  /-- the worker applied a queued `put(k, v)` (`ttl = none`) / `put_with_ttl(k, v, t)` (`ttl = some t`) and admitted it -/
+  /-- the worker applied a queued `put(k, v)` (`ttl = none`) / `put_with_ttl(k, v, t)` (`ttl = some t`) and accepted it -/
   | installed (v : Nat) (ttl : Option Nat)
   /-- `put_or_update(k, value := v, time_to_live := ttl, remove_time_to_live := rm)` was called on a present key -/
   | rewritten (v : Option Nat) (ttl : Option Nat) (rm : Bool)
@@ -89,7 +89,6 @@ inductive KeyStep (now now' : Nat) : Why → Option Cell → Option Cell → Pro
   | evicted (c : Cell) : now' = now → KeyStep now now' .evicted (some c) none
   | cleared (c : Option Cell) : now' = now → KeyStep now now' .cleared c none
 
-/-- the cell before a step whose cause is not `cleared` determines whether a cell existed -/
 theorem KeyStep.unchanged_eq {now now' : Nat} {c c' : Option Cell} (h : KeyStep now now' .unchanged c c') : c' = c := by
   cases h; rfl
 
